@@ -14,7 +14,8 @@ def run(ctx):
                 "columns, traces that USE the rows taking part only in exempt transitions in the main and the auxiliary segment) on 8..64 rows: cells "
                 "{no aux, aux narrower / as wide as / wider than main} x {without, with Lagrange column} x {1 exemption, 2 / 3 / 4 exemptions with every exempt step violated, "
                 "2 exemptions unused} x rotating {periodic column, main assertion kind, aux assertion kind, extension 1/2/3, field, hasher}; every declared degree 1..blowup+1 "
-                "(blowup 2,4,8) with/without periodic column x exemptions {1,2,d}; wide segments (64, 8+8, 9+9, 128+125+Lagrange, 1+253+Lagrange); degenerate traces; the plain "
+                "(blowup 2,4,8) with/without periodic column x exemptions {1,2,d}; wide segments (64, 8+8, 9+9, 128+125+Lagrange, 1+253+Lagrange); auxiliary sequence assertions with "
+                ">= 64 values (128 / 256 rows); degenerate traces; the plain "
                 "Lagrange family; random members.  Oracle: reference validity (is_valid, x_aux_check) => prove Ok, verify Ok, byte round trip, in both profiles; in the debug "
                 "profile a panic of the prover's debug-only degree validation is tolerated exactly where the reference computation of the actual constraint degrees "
                 "(x_main_exact / x_aux_exact / x_domain_ok: leading coefficients of the trace, periodic and constraint polynomials) predicts it, and the cells count only "
@@ -148,7 +149,7 @@ def run(ctx):
             for lag in lags:
                 for ex in ("e1", "e2:used", "e3:used"):
                     need.append((prof, f"cell:aux-{shape}:lag{lag}:{ex}"))
-        need += [(prof, k) for k in ("x-plain-lagrange-kernel", "x-degenerate:zero-trace-aux", "x-degenerate:all-hold-e3", "x-width:9+9",
+        need += [(prof, k) for k in ("x-plain-lagrange-kernel", "x-degenerate:zero-trace-aux", "x-degenerate:all-hold-e3", "x-width:9+9", "x-aux-sequence:>=64-values",
                                      "x-crosscheck:valid:aux1:lag1:e>=2", "x-crosscheck:invalid:aux1:lag1:e>=2", "x-crosscheck:valid:aux1:lag0:e>=2",
                                      "x-crosscheck:invalid:aux1:lag0:e>=2", "x-crosscheck:valid:aux0:lag0:e>=2")]
     missing = [f"{p}/{k}" for p, k in need if xstrata.get(p, {}).get(k, 0) == 0]
